@@ -31,7 +31,8 @@ TSilentReturn == /\ pc = "dfs" /\ Len(stack) > 0 /\ Top.todo = {} /\ Emitted = "
 TPhase == /\ NextPhase /\ pc' # "done" /\ Silent
 TDone == /\ Is("ro_done") /\ NextPhase /\ pc' = "done" /\ ToSet(E.order) = ToSet(Final) /\ Len(E.order) = Len(Final)
          /\ (\A i \in 1..Len(Final) : E.order[i] = Final[i]) /\ Consume
-TNext == TStart \/ TRoot \/ TEnter \/ TEdge \/ TEmit \/ TSilentReturn \/ TPhase \/ TDone
+TSubst == Substitute /\ Silent
+TNext == TSubst \/ TStart \/ TRoot \/ TEnter \/ TEdge \/ TEmit \/ TSilentReturn \/ TPhase \/ TDone
 
 Accepted == l = Len(Ev(case)) + 1 /\ pc \in {"done", "cycle"}
 VerdictOk == (pc = "done" /\ D[case].verdict = "ok") \/ (pc = "cycle" /\ D[case].verdict = "cycle")
